@@ -335,4 +335,155 @@ theorem goDecodeDBAamd64_eq (bs : List Nat) (ps ss : List (BitVec 32)) (src1 src
     simp only [hc, if_false, n1, n2, Bool.false_eq_true, hv', not_true_eq_false, hnl]
     rw [amd64Vals_of_goJoin src2 ps ss vs hl h hend]
 
+/-! ## the amd64 wrapper of `decodeFixedLenByteArray` (FIXED_LEN_BYTE_ARRAY values, same shape) -/
+
+/-- every value has `size` bytes: `prefix[i] + suffix[i] = size` (what a FIXED_LEN_BYTE_ARRAY(size)
+column holds; `DecodeFixedLenByteArray` itself does not check it) -/
+def allSize (size : Nat) : List Nat → List Nat → Prop
+  | p :: ps, n :: ss => p + n = size ∧ allSize size ps ss
+  | _, _ => True
+
+instance allSize.dec (size : Nat) : ∀ (ps ss : List Nat), Decidable (allSize size ps ss)
+  | p :: ps, n :: ss => by
+    unfold allSize
+    exact @instDecidableAnd _ _ _ (allSize.dec size ps ss)
+  | [], _ => by unfold allSize; infer_instance
+  | _ :: _, [] => by unfold allSize; infer_instance
+
+/-- MIRROR byte_array_amd64.go:112-164 `decodeFixedLenByteArray` with the kernel
+(`decodeByteArrayAVX2x128bits` for `size == 16`, `decodeByteArrayAVX2` otherwise) replaced by its
+contract (the first `k` values, `i` = bytes written): same split scan as `decodeByteArray`,
+`j = len(src) - n`, but the previous value is reconstructed from the column's value size,
+`if i >= size { lastValue = dst[i-size:] }` (otherwise it stays nil), then the scalar loop. -/
+def amd64FlbaVals (size : Nat) (src ps ss : List Nat) : List (List Nat) :=
+  let cn := tailScan ss.reverse 0 0
+  let k := ss.length - cn.1
+  if 64 < src.length ∧ 0 < k ∧ 64 ≤ cn.2 then
+    let head := loopVals src [] 0 (ps.take k) (ss.take k)
+    let out := head.flatten
+    let lastV := if size ≤ out.length then out.drop (out.length - size) else []
+    head ++ loopVals src lastV (src.length - cn.2) (ps.drop k) (ss.drop k)
+  else loopVals src [] 0 ps ss
+
+/-- MIRROR byte_array.go:148-174 `DecodeFixedLenByteArray` on the assembly build (the size argument is
+within `MaxFixedLenByteArraySize`): as `goDecodeDBAamd64` with the FLBA wrapper. -/
+def goDecodeFLBAamd64 (size : Nat) (bs : List Nat) : Except GoErr (List (List Nat)) :=
+  match goDecode 32 bs with
+  | .error e => .error e
+  | .ok (ps, src1) =>
+    match goDecode 32 src1 with
+    | .error e => .error e
+    | .ok (ss, src2) =>
+      if ps.length ≠ ss.length then .error .countMismatch
+      else if ps.any (·.msb) then .error .negPrefix
+      else if ss.any (·.msb) then .error .negLength
+      else if ¬ validLens 0 (ps.map BitVec.toNat) (ss.map BitVec.toNat) then .error .prefixOOB
+      else if src2.length < (ss.map BitVec.toNat).sum then .error .lengthOOB
+      else .ok (amd64FlbaVals size src2 (ps.map BitVec.toNat) (ss.map BitVec.toNat))
+
+theorem allSize_take (size : Nat) : ∀ (ps ss : List Nat) (k : Nat), allSize size ps ss →
+    allSize size (ps.take k) (ss.take k)
+  | _, _, 0, _ => by simp [allSize]
+  | [], _, _ + 1, _ => by simp [allSize]
+  | _ :: _, [], _ + 1, _ => by simp [allSize]
+  | p :: ps, n :: ss, k + 1, h => by
+    simp only [List.take_succ_cons, allSize] at h ⊢
+    exact ⟨h.1, allSize_take size ps ss k h.2⟩
+
+theorem allSize_last (size : Nat) : ∀ (ps ss : List Nat), ps.length = ss.length → ps ≠ [] →
+    allSize size ps ss → ps.getLastD 0 + ss.getLastD 0 = size
+  | [], _, _, hne, _ => absurd rfl hne
+  | _ :: _, [], h, _, _ => by simp at h
+  | [p], [n], _, _, h => by simpa [allSize] using h
+  | [_], _ :: _ :: _, h, _, _ => by simp at h
+  | _ :: _ :: _, [_], h, _, _ => by simp at h
+  | p :: p2 :: ps, n :: n2 :: ss, h, _, hs => by
+    have ih := allSize_last size (p2 :: ps) (n2 :: ss) (by simpa using h) (by simp) hs.2
+    simpa [List.getLastD_cons] using ih
+
+/-- **The amd64 wrapper of `decodeFixedLenByteArray` equals the portable loop** on every valid input
+whose values all have `size` bytes and whose suffix bytes end at the end of `src`: `dst[i-size:]` is
+the value the portable loop wrote last, whatever `k` the split scan chooses. -/
+theorem amd64FlbaVals_eq (size : Nat) (src ps ss : List Nat) (hl : ps.length = ss.length)
+    (hv : validLens 0 ps ss) (hsz : allSize size ps ss) (hs : ss.sum = src.length) :
+    amd64FlbaVals size src ps ss = loopVals src [] 0 ps ss := by
+  obtain ⟨m, hm, h1, h2⟩ := tailScan_spec ss.reverse 0 0
+  simp only [Nat.zero_add, List.length_reverse] at hm h1 h2
+  simp only [amd64FlbaVals, h1, h2]
+  split
+  · rename_i hc
+    obtain ⟨_, hk, _⟩ := hc
+    have hkl : ss.length - m ≤ ss.length := by omega
+    have hn : (ss.reverse.take m).sum = (ss.drop (ss.length - m)).sum := by
+      rw [List.take_reverse, List.sum_reverse]
+    generalize hkdef : ss.length - m = k at hk hkl hn ⊢
+    have hps : ps = ps.take k ++ ps.drop k := (List.take_append_drop k ps).symm
+    have hss : ss = ss.take k ++ ss.drop k := (List.take_append_drop k ss).symm
+    have hlt : (ps.take k).length = (ss.take k).length := by
+      simp only [List.length_take]; omega
+    have hne : ps.take k ≠ [] := by
+      intro h0
+      have := congrArg List.length h0
+      simp only [List.length_take, List.length_nil] at this
+      omega
+    have hvs : validLens 0 (ps.take k ++ ps.drop k) (ss.take k ++ ss.drop k) := by
+      rw [← hps, ← hss]; exact hv
+    obtain ⟨hv1, _⟩ := validLens_append _ _ 0 _ _ hlt hvs
+    have hsum := sum_take_add_drop ss k
+    have hj : src.length - (ss.reverse.take m).sum = 0 + (ss.take k).sum := by rw [hn]; omega
+    have hlast := loopVals_last_length src (ps.take k) (ss.take k) [] 0 hlt hne hv1 (by omega)
+    have hsz' := allSize_last size _ _ hlt hne (allSize_take size ps ss k hsz)
+    have hhead : loopVals src [] 0 (ps.take k) (ss.take k) ≠ [] := by
+      intro h0
+      rw [h0] at hlast
+      cases hpk : ps.take k with
+      | nil => exact hne hpk
+      | cons p t =>
+        cases hsk : ss.take k with
+        | nil => rw [hpk, hsk] at hlt; simp at hlt
+        | cons n t2 => rw [hpk, hsk] at h0; simp [loopVals] at h0
+    have hdrop := flatten_drop_last _ [] hhead
+    rw [hlast, hsz'] at hdrop
+    have hle : size ≤ (loopVals src [] 0 (ps.take k) (ss.take k)).flatten.length := by
+      have hlen := congrArg List.length hdrop
+      rw [List.length_drop, hlast, hsz'] at hlen
+      omega
+    rw [if_pos hle, hdrop, hj]
+    conv => rhs; rw [hps, hss]
+    rw [loopVals_append src _ _ [] 0 _ _ hlt]
+  · rfl
+
+/-- with the values of a FIXED_LEN_BYTE_ARRAY(size) column the two amd64 wrappers agree -/
+theorem amd64FlbaVals_of_goJoin (size : Nat) (src : List Nat) (ps ss : List (BitVec 32)) (vs : List (List Nat))
+    (hl : ps.length = ss.length) (h : goJoin [] ps ss src = .ok vs)
+    (hsz : allSize size (ps.map BitVec.toNat) (ss.map BitVec.toNat))
+    (hend : (ss.map BitVec.toNat).sum = src.length) :
+    amd64FlbaVals size src (ps.map BitVec.toNat) (ss.map BitVec.toNat) = vs := by
+  obtain ⟨h1, h2⟩ := goJoin_loopVals src ps ss [] 0 vs hl (by simpa using h)
+  rw [amd64FlbaVals_eq size src _ _ (by simp [hl]) (by simpa using h2) hsz hend, h1]
+
+/-- whole function: where the portable decoder mirror returns `vs`, every value has `size` bytes and
+the suffix bytes end where the input ends, so does the mirror of the assembly build's
+`DecodeFixedLenByteArray` -/
+theorem goDecodeFLBAamd64_eq (size : Nat) (bs : List Nat) (ps ss : List (BitVec 32)) (src1 src2 : List Nat)
+    (vs : List (List Nat))
+    (h1 : goDecode 32 bs = .ok (ps, src1)) (h2 : goDecode 32 src1 = .ok (ss, src2))
+    (h : goDecodeDBA bs = .ok vs) (hsz : allSize size (ps.map BitVec.toNat) (ss.map BitVec.toNat))
+    (hend : (ss.map BitVec.toNat).sum = src2.length) :
+    goDecodeFLBAamd64 size bs = .ok vs := by
+  simp only [goDecodeDBA, h1, h2] at h
+  simp only [goDecodeFLBAamd64, h1, h2]
+  split at h
+  · cases h
+  · next hc =>
+    have hl : ps.length = ss.length := by
+      have : ¬ ps.length ≠ ss.length := hc
+      omega
+    obtain ⟨n1, n2, n3⟩ := goJoin_nonneg ps ss [] src2 vs hl h
+    obtain ⟨_, hv⟩ := goJoin_loopVals src2 ps ss [] 0 vs hl (by simpa using h)
+    have hv' : validLens 0 (ps.map BitVec.toNat) (ss.map BitVec.toNat) := by simpa using hv
+    have hnl : ¬ (src2.length < (ss.map BitVec.toNat).sum) := by omega
+    simp only [hc, if_false, n1, n2, Bool.false_eq_true, hv', not_true_eq_false, hnl]
+    rw [amd64FlbaVals_of_goJoin size src2 ps ss vs hl h hsz hend]
+
 end PqModel.Delta
